@@ -245,7 +245,9 @@ func runRoute(seed int64, idx int) *scen.Outcome {
 			f.down[a] = append(f.down[a], downIv{from, from + time.Duration(100+rng.Intn(1500))*time.Millisecond})
 		}
 	}
-	f.latency = func(addr string, at time.Duration) time.Duration { return time.Duration(1+len(addr)) * time.Millisecond }
+	f.latency = func(addr string, at time.Duration) time.Duration {
+		return time.Duration(1+len(addr)) * time.Millisecond
+	}
 	c := rpc.NewClient(nil)
 	c.Transport = f
 	c.Scheduling = rpc.Scheduling(rng.Intn(3))
@@ -904,8 +906,10 @@ func runFailover(seed int64, idx int) *scen.Outcome {
 				if relDeadline >= 0 && relDeadline < timeoutLo-eps {
 					bad("C18/failover/not-released", fmt.Sprintf("%s (started +%v) timed out at +%v although a target came up at +%v, more than one tick plus the ping latency earlier (%s)", fc.form, fc.start, fc.end, relAt, desc))
 				}
-				if closeAt >= 0 && closeAt < timeoutLo-eps && closeAt >= fc.start+hookSlack {
-					bad("C18/failover/not-closed", fmt.Sprintf("%s (started +%v) timed out at +%v although the Client was closed at +%v (%s)", fc.form, fc.start, fc.end, closeAt, desc))
+				// A caller present at Close is released by it; one that registers after it is rejected at
+				// registration, at the latest start+hookSlack. Either way it cannot still be waiting later.
+				if closeAt >= 0 && closeAt < timeoutLo-eps && fc.end > max(closeAt, fc.start+hookSlack)+eps {
+					bad("C18/failover/not-closed", fmt.Sprintf("%s (started +%v) waited until its DialTimeout at +%v although the Client was closed at +%v (%s)", fc.form, fc.start, fc.end, closeAt, desc))
 				}
 			default:
 				bad("C18/failover/released-by-nothing", fmt.Sprintf("%s started +%v returned %v at +%v: no target was routed to, the Client was not closed then (closed at %v) and DialTimeout (%v) had not elapsed (due at +%v); target up at %v (%s)",
